@@ -1116,6 +1116,9 @@ class HTTPResponse(BaseHTTPResponse):
 
         if self._connection:
             self._connection.close()
+            # Closing is a way of disposing of the response: give the slot of
+            # the (now closed) connection back to the pool.
+            self.release_conn()
 
         if not self.auto_close:
             io.IOBase.close(self)
